@@ -36,10 +36,10 @@ def gen_cfg(rng, kinds=None, ecs=None):
 
 
 def cfg_spec(cfg):
-    kinds, e, sets, rules = cfg
+    kinds, e, sets, rules = cfg[:4]
     ss = ",".join("+".join("%s.%s" % (k, gens.hx(gens.raw_name(n))) for k, n in ents) if ents else "-" for ents in sets)
     rs = ",".join("%s:%d:%d:%s" % r for r in rules)
-    return "U=%s;E=%d;S=%s;R=%s" % (kinds, e, ss, rs)
+    return "U=%s;E=%d;S=%s;R=%s%s" % (kinds, e, ss, rs, ";T=1" if len(cfg) > 4 and cfg[4] else "")
 
 
 def opt_rr(rng, size=None, options=None):
@@ -54,7 +54,7 @@ def opt_rr(rng, size=None, options=None):
 
 
 def gen_query(rng, cfg, idx):
-    kinds, e, sets, rules = cfg
+    kinds, e, sets, rules = cfg[:4]
     ents = [n for s in sets for _, n in s]
     r = rng.random()
     if ents and r < 0.6:
@@ -205,11 +205,15 @@ def handle_gen(rng, tier):
     out = []
     idx = 0
     slow_budget = budget(tier, 8, 64)
+    delayed_budget = budget(tier, 24, 200)
     for ci in range(ncfg):
         kinds = None
         if ci % 4 == 1:
             kinds = "t" * rng.randint(1, 3)
         cfg = bcfgs[ci] if ci < len(bcfgs) else gen_cfg(rng, kinds=kinds, ecs=1 - ci % 2)
+        tls_on = ci in (1, len(bcfgs))          # one boundary and one random configuration also start tls/https/quic
+        if tls_on:
+            cfg = tuple(cfg) + (True,)
         spec = cfg_spec(cfg)
         allt = set(cfg[0]) == {"t"}
         share = (n // 3) // len(bcfgs) if ci < len(bcfgs) else (n - n // 3) // max(1, ncfg - len(bcfgs))
@@ -217,6 +221,8 @@ def handle_gen(rng, tier):
             idx += 1
             q, name, qtype, qclass = gen_query(rng, cfg, idx)
             l = rng.choice(["udp", "udp", "tcp", "gnet", "http-get", "http-post", "fasthttp-get", "fasthttp-post"])
+            if tls_on and rng.random() < 0.6:
+                l = rng.choice(["tls", "https-get", "https-post", "quic", "quic"])
             client = "-"
             if l.startswith("http") or l.startswith("fasthttp"):
                 client = rng.choice(["-", "192.0.2.%d" % rng.randrange(256), "203.0.113.7", "2001:db8:1:2:3:4:5:%x" % rng.randrange(65536),
@@ -238,7 +244,13 @@ def handle_gen(rng, tier):
             else:
                 up = "reply:" + gens.hx(gen_reply(rng, name, qtype, qclass))
                 tag = "h"
-            out.append("%s%d cfg=%s l=%s client=%s q=%s up=%s" % (tag, idx, spec, l, client, gens.hx(q), up))
+            dl = ""
+            if tag == "h" and delayed_budget > 0 and rng.random() < 0.05:
+                # an upstream that answers after 1.2-2.5 s (well inside the 6 s deadline): the reply must still be relayed
+                dl = " dl=%d" % rng.choice([1200, 1600, 2500])
+                delayed_budget -= 1
+                tag = "s"
+            out.append("%s%d cfg=%s l=%s client=%s q=%s up=%s%s" % (tag, idx, spec, l, client, gens.hx(q), up, dl))
     # put the slow (6 s) cases first so that they overlap with everything else
     out.sort(key=lambda s: (not s.startswith("s"),))
     return out
@@ -264,6 +276,8 @@ def handle_oracle(line, res):
     f = gens.fields(res)
     if f.get("late") == "1":
         return "response later than the 6 s request deadline plus 1.5 s slack"
+    if res.startswith("st=") and f.get("st") != "ok":
+        return "a decodable query got no DNS response on its transport (%s)" % f.get("st")
     if res.startswith("st=") and f.get("st") == "ok" and f.get("n") != "1":
         return "client received %s responses for one query" % f.get("n")
     return None
